@@ -84,6 +84,14 @@ func main() {
 	fmt.Printf("%x\\n", secp256k1.HashToGroup([]byte("abc"), dst).Encode())
 	fmt.Printf("%x\\n", secp256k1.EncodeToGroup([]byte("abc"), dst).Encode())
 	fmt.Printf("%x\\n", secp256k1.HashToScalar([]byte("abc"), dst).Encode())
+	// every branch of the DST handling: an oversize DST (> 255 bytes) takes the hashing branch
+	long := make([]byte, 300)
+	for i := range long {
+		long[i] = byte(i)
+	}
+	fmt.Printf("%x\\n", secp256k1.HashToGroup([]byte("abc"), long).Encode())
+	fmt.Printf("%x\\n", secp256k1.EncodeToGroup([]byte("abc"), long).Encode())
+	fmt.Printf("%x\\n", secp256k1.HashToScalar([]byte("abc"), long).Encode())
 }
 '''
 
@@ -121,8 +129,8 @@ def special_link(ctx):
         ctx.violations.append({"kind": "correspondence-broken", "detail": "minimal main does not build: " + r.stdout[-800:]})
         return
     r = sh([os.path.join(d, "minimal")])
-    ctx.coverage["evaluations"] = ctx.coverage.get("evaluations", 0) + 3
-    ctx.coverage["distinct_nontrivial"] = ctx.coverage.get("distinct_nontrivial", 0) + 3
+    ctx.coverage["evaluations"] = ctx.coverage.get("evaluations", 0) + 6
+    ctx.coverage["distinct_nontrivial"] = ctx.coverage.get("distinct_nontrivial", 0) + 6
     ctx.samples.append("minimal main importing only the package: exit %d, output %s" % (r.returncode, r.stdout.strip()[:200]))
     if r.returncode != 0:
         ctx.violations.append({"kind": "special", "op": "LINK minimal-main", "detail": {"exit": r.returncode, "output": r.stdout[-600:], "program": MINIMAL_MAIN}})
@@ -130,7 +138,9 @@ def special_link(ctx):
     # expected values from the executable specification (Lean driver)
     drv = os.path.join(LEAN, ".lake", "build", "bin", "secpdriver")
     msg, dst = "616263", "QUUX-V01-CS02-with-secp256k1_XMD:SHA-256_SSWU_RO_".encode().hex()
+    long = bytes(i % 256 for i in range(300)).hex()
     ops = "H2C.h2g %s %s\nH2C.e2g %s %s\nH2C.h2s %s %s\n" % (msg, dst, msg, dst, msg, dst)
+    ops += "H2C.h2g %s %s\nH2C.e2g %s %s\nH2C.h2s %s %s\n" % (msg, long, msg, long, msg, long)
     m = subprocess.run([drv], input=ops, stdout=subprocess.PIPE, text=True).stdout.strip().split("\n")
     got = r.stdout.strip().split("\n")
     want = []
@@ -235,7 +245,7 @@ PROPS = {
                          "theorem for every program importing the package, from facts extracted on every run (go list -deps, crypto.<ID>.New() uses). "
                          "Run time: a plain main importing only the package is built in a scratch module and run; its three outputs are compared with "
                          "the executable RFC 9380 specification.",
-             rule="one minimal program, three hashing functions",
+             rule="one minimal program per build configuration, three hashing functions x {ordinary DST, oversize DST}",
              trusted=["Go linker and package initialisation order (modelled)"]),
     "C18": P("proof", [("rnd", 400, 20000)], ["RND"], rule=RULE + "; a case is a scripted entropy stream (blocks 0, n, >= n, short reads, failure point) and a read chunk size",
              trusted=["crypto/rand.Reader and io.ReadFull (the stream model: ReadFull assembles 32 bytes or fails)"]),
